@@ -239,3 +239,34 @@ pub fn crc_valid_stable(b: &mut bp7::Bundle) -> &'static str {
         "U"
     }
 }
+
+/// The crate offers several public routes for the same step: Bundle::try_from(&[u8]) / try_from(Vec<u8>) / serde_cbor::from_slice /
+/// serde_cbor::from_reader for decoding, Bundle::to_cbor / serde's Serialize for encoding.  `b` is a bundle right after to_cbor() gave
+/// `bytes`, `main` what try_from(&[u8]) made of them.  Returns the first route that does not agree with the main one.
+pub fn alt_route_diff(b: &Bundle, bytes: &[u8], main: &Option<Bundle>) -> Option<&'static str> {
+    use std::convert::TryFrom;
+    let same = |r: Option<Bundle>| match (&r, main) {
+        (Some(x), Some(y)) => x == y,
+        (None, None) => true,
+        _ => false,
+    };
+    if !same(Bundle::try_from(bytes.to_vec()).ok()) {
+        return Some("try_from(Vec<u8>)");
+    }
+    if !same(serde_cbor::from_slice::<Bundle>(bytes).ok()) {
+        return Some("serde_cbor::from_slice");
+    }
+    if !same(serde_cbor::from_reader::<Bundle, _>(bytes).ok()) {
+        return Some("serde_cbor::from_reader");
+    }
+    // serde's Serialize for Bundle writes the stored CRC values (to_cbor has just calculated them): what it emits decodes to the bundle
+    match serde_cbor::to_vec(b) {
+        Ok(v) => match Bundle::try_from(v.as_slice()) {
+            Ok(d) if main.is_none() || d == *b => None,
+            Ok(_) => Some("serde_cbor::to_vec(&bundle) then try_from"),
+            Err(_) if main.is_none() => None,
+            Err(_) => Some("serde_cbor::to_vec(&bundle) does not decode"),
+        },
+        Err(_) => Some("serde_cbor::to_vec(&bundle) fails"),
+    }
+}
